@@ -47,6 +47,11 @@ func (te *tableEngine) tableGameOpen() error {
 					return nil
 				}
 
+				// 重試期間桌次已關閉或已釋放，不再開局
+				if te.isReleased || te.table.State.Status == TableStateStatus_TableClosed {
+					return nil
+				}
+
 				newTable, err = te.openGame(te.table)
 				if err != nil {
 					if errors.Is(err, ErrTableOpenGameFailed) {
